@@ -27,10 +27,12 @@ from pathlib import Path
 sys.path.insert(0, str(Path(__file__).resolve().parent))
 import common as C
 import c08_et as ET
+import c08lib as L
 
 PID = "C08"
+# built in coq/ (independent of the source text); Gen_PubSub / GenAgree / Props/C08 are compiled per tree (c08lib.PubSubTree)
 TARGETS = ["PubSub/Model.vo", "PubSub/SubsProofs.vo", "PubSub/EventProofs.vo", "PubSub/Proofs.vo", "PubSub/OpsProofs.vo",
-           "PubSub/TypeModel.vo", "PubSub/TypeProofs.vo", "Props/C08.vo"]
+           "PubSub/TypeModel.vo", "PubSub/TypeProofs.vo"]
 N_ET = 3
 N_LIS = 4
 N_PROD = 2
@@ -821,7 +823,14 @@ def main(tier: str) -> int:
 
     def mark(name):
         now = _t.time(); phase[name] = round(now - t_ph[0], 2); t_ph[0] = now
-    proofs_ok = run.check_proofs(TARGETS, extra_tb=[
+    try:
+        tree = L.PubSubTree().prepare()
+    except Exception as exc:  # noqa
+        run.violation("translated-model-not-buildable", f"the model could not be regenerated from the source: {type(exc).__name__}: {exc}",
+                      {"unchecked": "coq/PubSub/GenAgree.v"}, found_input=False)
+        return run.finish()
+    mark("translate_and_agreement_proofs")
+    proofs_ok = L.check_proofs(run, tree, TARGETS, extra_tb=[
         "Python object identity / isinstance abstracted: listeners and event types are numbered objects, payload values are "
         "represented by their exact class in a 10-class lattice (object, int, bool<=int, float, str, NoneType, list, dict, Base, Derived<=Base)",
         "listener behaviour = a finite queue of scripts (the k-th notification performs the k-th script); exceptions raised in "
@@ -926,6 +935,38 @@ def main(tier: str) -> int:
         tdone.append((tc, tobs, eobs))
 
     mark("event_type_cases_on_impl")
+    # ---- the regenerated model no longer equals the proved one: look harder for a concrete failing input
+    tie = tree.broken()
+    if tie and not (first_bad or ctor_bad or t_bad):
+        rng2 = random.Random(run.seed * 7919 + 808)
+        tried = 0
+        for i in range(n_random + n_mal):
+            case = Gen(rng2, i >= n_random).case()
+            tried += 1
+            try:
+                _tr, findings, _ctx = run_impl(case)
+            except Exception:  # noqa
+                continue
+            if findings:
+                first_bad = (case, findings)
+                bad_cases.append(case)
+                break
+        if first_bad is None:
+            for _ in range(n_t):
+                tc = ET.gen_tcase(rng2, Gen, VALUE_TYPES)
+                tried += 1
+                try:
+                    tobs, eobs = ET.run_tcase(ps_mod, tc, me)
+                except Exception:  # noqa
+                    continue
+                f = ET.judge_tcase(tc, tobs, eobs, me)
+                if f:
+                    t_bad = (tc, f)
+                    break
+        run.cov["extra_cases_searched_after_broken_tie"] = tried
+        mark("extra_search_after_broken_tie")
+    run.cov["source_translation"]["tie"] = ({"status": "broken", **{k: v for k, v in tie.items() if k != "failures"}}
+                                            if tie else {"status": "checked"})
     run.cov["evaluations"] = len(done) + len(ctor_in) + len(tdone)
     run.cov["distinct_nontrivial"] = len(nontrivial)
     run.cov["rule"] = (f"{n_random} random + {n_mal} malformed-stream op sequences over {N_PROD} producers x {N_ET} event types x {N_LIS} listeners with scripted "
@@ -1068,6 +1109,8 @@ def main(tier: str) -> int:
                       "correspondence PubSub.Model.case_ok / ctor_ok / PubSub.TypeModel.tcase_ok no longer matches the implementation, but the monitor "
                       "(reference subscription map + reference acceptance rule) found no violated clause",
                       rep, found_input=False)
+    if tie and not impl_fail:
+        L.report_broken_tie(run, tree, {"model_impl_mismatching_cases": n_mism})
     if not proofs_ok and not run.violations:
         run.violation("proof-broken", "a C08 proof obligation no longer checks: " + getattr(run, "proof_log", "")[-800:],
                       {"theorems": run.cov.get("theorems")}, found_input=False)
